@@ -239,6 +239,18 @@ func (d *driver) ops(w *world.World, depth int, path []string) []engine.Op {
 		}
 		return "ok"
 	})
+	// governance sets the community tax to zero: the redirect does not depend on it
+	add("communityTax(0)", func(p []string, res *engine.Result) string {
+		dp := w.App.DistrKeeper.GetParams(w.Ctx())
+		if dp.CommunityTax.IsZero() {
+			return "skip"
+		}
+		dp.CommunityTax = sdk.ZeroDec()
+		if err := w.App.DistrKeeper.SetParams(w.Ctx(), dp); err != nil {
+			panic(err)
+		}
+		return "ok"
+	})
 	proposal := func(name string, deposit sdk.Coins, vote *govv1.VoteOption, blocks int, source string) {
 		add(name, func(p []string, res *engine.Result) string {
 			m, err := govv1.NewMsgSubmitProposal(nil, deposit, A2.String(), "ipfs://verif", name, name)
@@ -317,7 +329,7 @@ func Run(tier string) int {
 	}
 	return engine.Finish(res, engine.Meta{
 		Property: Prop, Tier: tier, Level: "model_checking", Start: start,
-		Rule:   "all sequences <= depth over 12 operations (bank send-enabled switched off for the native denomination / by default, double-sign evidence per validator with an early infraction height so that unbonding and redelegating stake is slashed too, 7-block downtime window, delegate / undelegate / redelegate, vetoed / no-quorum / under-funded proposal with a two-denomination deposit, plain block) from a fixture holding bonded, unbonding and redelegating stake, with amounts such that every slash and burnt deposit exceeds 2^63 base units; the same on a second chain whose staking bond denomination is not the native coin (one level less deep); conservation oracle around every virtual block boundary; non-trivial = boundary at which coins were taken, distinct by (source, amount)",
+		Rule:   "all sequences <= depth over 13 operations (bank send-enabled switched off for the native denomination / by default, community tax set to zero, double-sign evidence per validator with an early infraction height so that unbonding and redelegating stake is slashed too, 7-block downtime window, delegate / undelegate / redelegate, vetoed / no-quorum / under-funded proposal with a two-denomination deposit, plain block) from a fixture holding bonded, unbonding and redelegating stake, with amounts such that every slash and burnt deposit exceeds 2^63 base units; the same on a second chain whose staking bond denomination is not the native coin (one level less deep); conservation oracle around every virtual block boundary; non-trivial = boundary at which coins were taken, distinct by (source, amount)",
 		Bounds: map[string]any{"depth": bounds(tier)},
 		Assumptions: []string{
 			"coinomics off, zero fees: the community pool has no other inflow",
